@@ -292,6 +292,54 @@ func encIO(h codec.Handle, v interface{}) ([]byte, error) {
 	return buf.Bytes(), err
 }
 
+// encIOReuse produces the encoding of build() through io.Writer-backed Encoders with a given WriterBufferSize:
+// a fresh one, the same one after each of 1-3 Resets, and twice in a row on one Encoder without Reset (the
+// second half is returned). Every returned slice must equal the []byte encoding.
+func encIOReuse(format string, o vh.Opts, r *vh.Rng, build func() interface{}) (outs [][]byte, how string, err error) {
+	o2 := vh.Opts{}
+	for k, v := range o {
+		o2[k] = v
+	}
+	wbs := r.PickInt(0, 16, 64, 1024)
+	resets := 1 + r.Intn(3)
+	o2["WriterBufferSize"] = wbs
+	how = fmt.Sprintf("wbs%d/resets%d", wbs, resets)
+	h := vh.NewHandle(format, o2)
+	bufs := make([]*bytes.Buffer, 0, resets+2)
+	nb := func() *bytes.Buffer { b := new(bytes.Buffer); bufs = append(bufs, b); return b }
+	enc := codec.NewEncoder(nb(), h)
+	if err = enc.Encode(build()); err != nil {
+		return
+	}
+	for i := 0; i < resets; i++ {
+		enc.Reset(nb())
+		if err = enc.Encode(build()); err != nil {
+			return
+		}
+	}
+	for _, b := range bufs {
+		outs = append(outs, b.Bytes())
+	}
+	// the same value twice on one Encoder
+	var two bytes.Buffer
+	enc.Reset(&two)
+	v := build()
+	if err = enc.Encode(v); err != nil {
+		return
+	}
+	n1 := two.Len()
+	if err = enc.Encode(v); err != nil {
+		return
+	}
+	outs = append(outs, append([]byte(nil), two.Bytes()[:n1]...))
+	if !(format == "binc" && o["AsSymbols"] == 1) {
+		// binc symbols: the table lives as long as the Encoder, a second value on the same stream refers to the
+		// symbols the first one defined (by design); everywhere else the second copy must be the same bytes
+		outs = append(outs, append([]byte(nil), two.Bytes()[n1:]...))
+	}
+	return
+}
+
 // emittedOrder returns the ids of the sentinels in the order they occur in out (each exactly once).
 func emittedOrder(out []byte, n int) ([]int, bool) {
 	type pi struct{ pos, id int }
@@ -502,6 +550,26 @@ func mapsStream(r *vh.Rng, n, reps int, cv *vh.Cases, sum *vh.Summary, idBase in
 			continue
 		}
 		first = outs[0]
+		// io.Writer-backed Encoders, fresh and Reset/reused, must write the bytes NewEncoderBytes writes
+		// (compared when the order is determined: no ties, no binc symbols)
+		if ties == 0 && !symAffected {
+			ioOuts, how, err := encIOReuse(format, o, r, func() interface{} { return buildMap(mt, keys, randPerm(r, nk)).Interface() })
+			cj["io"] = how
+			if err != nil {
+				cj["err"] = fmt.Sprint(err)
+				sum.FailC("maps", "io-reuse-error:"+kk.kk, "Encode through a Reset io.Writer-backed Encoder failed where NewEncoderBytes succeeds", cj)
+			}
+			for i, o2 := range ioOuts {
+				if !bytes.Equal(o2, first) {
+					cj["io_index"], cj["first"], cj["got"] = i, vh.Hex(first), vh.Hex(o2)
+					sum.FailC("maps", "io-reuse-differs:"+kk.kk, "a fresh / Reset io.Writer-backed Encoder writes other canonical bytes than NewEncoderBytes", cj)
+					delete(cj, "first")
+					delete(cj, "got")
+					break
+				}
+			}
+			sum.Dist["maps.io."+how]++
+		}
 		differ := false
 		for _, o2 := range outs[1:] {
 			if !bytes.Equal(o2, first) {
@@ -671,6 +739,18 @@ func structStream(r *vh.Rng, n, reps int, cv *vh.Cases, sum *vh.Summary, idBase 
 		if !ok {
 			sum.Count("struct.encode-error", "")
 			continue
+		}
+		if ioOuts, how, err := encIOReuse(format, o, r, build); err != nil {
+			cj["err"] = fmt.Sprint(err)
+			sum.FailC("struct", "io-reuse-error:struct", "Encode through a Reset io.Writer-backed Encoder failed where NewEncoderBytes succeeds", cj)
+		} else {
+			for i, o2 := range ioOuts {
+				if !bytes.Equal(o2, first) {
+					cj["io"], cj["io_index"], cj["got"] = how, i, vh.Hex(o2)
+					sum.FailC("struct", "io-reuse-differs:struct", "a fresh / Reset io.Writer-backed Encoder writes other canonical bytes than NewEncoderBytes", cj)
+					break
+				}
+			}
 		}
 		order, found := emittedOrder(first, len(names))
 		if !found {
@@ -915,6 +995,20 @@ func nestedStructStream(r *vh.Rng, n, reps int, sum *vh.Summary) {
 				}
 			}
 		}
+		if first != nil {
+			if ioOuts, how, err := encIOReuse(format, o, r, build); err != nil {
+				cj["err"] = fmt.Sprint(err)
+				sum.FailC("nstruct", "io-reuse-error:nested-struct-keys", "Encode through a Reset io.Writer-backed Encoder failed where NewEncoderBytes succeeds", cj)
+			} else {
+				for i, o2 := range ioOuts {
+					if !bytes.Equal(o2, first) {
+						cj["io"], cj["io_index"], cj["first"], cj["got"] = how, i, vh.Hex(first), vh.Hex(o2)
+						sum.FailC("nstruct", "io-reuse-differs:nested-struct-keys", "a fresh / Reset io.Writer-backed Encoder writes other canonical bytes than NewEncoderBytes", cj)
+						break
+					}
+				}
+			}
+		}
 		sum.Count("nstruct."+format, fmt.Sprintf("nstruct/%s/%d/%d/%d/%v", format, no, ni, len(pad), bytesVals))
 	}
 }
@@ -928,7 +1022,7 @@ func main() {
 	cases := flag.String("cases", "/verif/build/c08/cases", "directory for the model case files")
 	flag.Parse()
 	r := vh.NewRng(vh.SeedFromEnv())
-	sum := vh.NewSummary("maps: 31 key kinds (interface{} keys mixing arrays/structs with scalars under json MapKeyAsString / simple EncZeroValuesAsNil, named int/string/int16 keys with Text / Binary / Selfer hooks, string, named string, intN, named int, uintN, uintptr, named uint, float32/64, named float, bool, time, time keys inside one second, time in several zones, struct, array, interface{} with distinct / with shared encodings, named fast-path map) x 5 formats x random options x sizes 1..24 x 3 insertion permutations x reps fresh Encoders x 4 goroutines x bytes/io; distinct by (key kind, format, size, ties). struct: MissingFielder struct (declared fields always present / all omitempty with 0, 1, several or all present) x extra-field sets rebuilt in random order. nested: maps/lists to depth 3 rebuilt in random insertion orders. nstruct: map[struct]map[struct]string and map[struct][]byte with 20-60 byte keys, up to 12x12, identical bytes across rebuilds and DeepEqual after Decode")
+	sum := vh.NewSummary("maps: 31 key kinds (interface{} keys mixing arrays/structs with scalars under json MapKeyAsString / simple EncZeroValuesAsNil, named int/string/int16 keys with Text / Binary / Selfer hooks, string, named string, intN, named int, uintN, uintptr, named uint, float32/64, named float, bool, time, time keys inside one second, time in several zones, struct, array, interface{} with distinct / with shared encodings, named fast-path map) x 5 formats x random options x sizes 1..24 x 3 insertion permutations x reps fresh Encoders x 4 goroutines x bytes/io (fresh io Encoder, the same Encoder after 1-3 Resets with WriterBufferSize 0/16/64/1024, twice in a row on one Encoder); distinct by (key kind, format, size, ties). struct: MissingFielder struct (declared fields always present / all omitempty with 0, 1, several or all present) x extra-field sets rebuilt in random order. nested: maps/lists to depth 3 rebuilt in random insertion orders. nstruct: map[struct]map[struct]string and map[struct][]byte with 20-60 byte keys, up to 12x12, identical bytes across rebuilds and DeepEqual after Decode")
 	cv := vh.NewCases(*cases, "From Coq Require Import List NArith ZArith.\nFrom Verif Require Import C08.Model C08.Corr.\nImport ListNotations.", "case", "mismatches", 60)
 	id := mapsStream(r.Fork(), *nMaps, *reps, cv, sum, 0)
 	structStream(r.Fork(), *nStruct, *reps, cv, sum, id)
